@@ -346,6 +346,26 @@ impl Number {
     }
 }
 
+/// Orders an exact number against a double by value. Every finite double is a rational
+/// number, so the comparison is exact; rounding the exact operand to a double instead would
+/// identify it with its neighbours (2^53 + 1 with 2^53).
+fn exact_partial_cmp_f64(lhs: &Number, rhs: f64) -> Option<Ordering> {
+    let lhs = match lhs {
+        Number::Fixnum(num) => BigRational::from_integer(BigInt::from(*num)),
+        Number::BigInt(num) => BigRational::from_integer((**num).clone()),
+        Number::Rational(num) => {
+            BigRational::new_raw(BigInt::from(*num.numer()), BigInt::from(*num.denom()))
+        }
+        Number::Float(num) => return num.partial_cmp(&rhs),
+    };
+    match BigRational::from_float(rhs) {
+        Some(rhs) => Some(lhs.cmp(&rhs)),
+        None if rhs.is_nan() => None,
+        None if rhs > 0.0 => Some(Ordering::Less),
+        None => Some(Ordering::Greater),
+    }
+}
+
 impl Eq for Number {}
 impl PartialEq for Number {
     fn eq(&self, rhs: &Self) -> bool {
@@ -353,7 +373,7 @@ impl PartialEq for Number {
             Number::Fixnum(lhs) => match rhs {
                 Number::Fixnum(rhs) => lhs == rhs,
                 Number::BigInt(rhs) => BigInt::from(*lhs) == **rhs,
-                Number::Float(rhs) => *lhs as f64 == *rhs,
+                Number::Float(rhs) => exact_partial_cmp_f64(self, *rhs) == Some(Ordering::Equal),
                 Number::Rational(rhs) => {
                     if lhs.to_i32().is_some() {
                         Rational32::from_integer(*lhs as i32) == *rhs
@@ -365,20 +385,15 @@ impl PartialEq for Number {
             Number::BigInt(lhs) => match rhs {
                 Number::Fixnum(rhs) => **lhs == BigInt::from(*rhs),
                 Number::BigInt(rhs) => lhs == rhs,
-                Number::Float(rhs) => lhs.to_f64().unwrap() == *rhs,
+                Number::Float(rhs) => exact_partial_cmp_f64(self, *rhs) == Some(Ordering::Equal),
                 Number::Rational(rhs) => match lhs.to_i32() {
                     Some(lhs) => Rational32::from_integer(lhs) == *rhs,
                     None => false,
                 },
             },
             Number::Float(lhs) => match rhs {
-                Number::Fixnum(rhs) => *lhs == *rhs as f64,
                 Number::Float(rhs) => lhs == rhs,
-                Number::BigInt(rhs) => *lhs == rhs.to_f64().unwrap(),
-                Number::Rational(rhs) => match rhs.to_f64() {
-                    Some(rhs) => *lhs == rhs,
-                    None => false,
-                },
+                _ => exact_partial_cmp_f64(rhs, *lhs) == Some(Ordering::Equal),
             },
             Number::Rational(lhs) => match rhs {
                 Number::Fixnum(rhs) => {
@@ -388,10 +403,7 @@ impl PartialEq for Number {
                         false
                     }
                 }
-                Number::Float(rhs) => match lhs.to_f64() {
-                    Some(lhs) => lhs == *rhs,
-                    None => false,
-                },
+                Number::Float(rhs) => exact_partial_cmp_f64(self, *rhs) == Some(Ordering::Equal),
                 Number::BigInt(rhs) => match rhs.to_i32() {
                     Some(rhs) => *lhs == Rational32::from_integer(rhs),
                     None => false,
@@ -408,42 +420,41 @@ impl PartialOrd for Number {
             Number::Fixnum(lhs) => match rhs {
                 Number::Fixnum(rhs) => lhs.partial_cmp(rhs),
                 Number::BigInt(rhs) => BigInt::from(*lhs).partial_cmp(&**rhs),
-                Number::Float(rhs) => (*lhs as f64).partial_cmp(rhs),
+                Number::Float(rhs) => exact_partial_cmp_f64(self, *rhs),
                 Number::Rational(rhs) => {
                     if lhs.to_i32().is_some() {
                         Rational32::from_integer(*lhs as i32).partial_cmp(rhs)
                     } else {
-                        Some(Ordering::Greater)
+                        // beyond every 32 bit rational, on the side of its sign
+                        lhs.partial_cmp(&0)
                     }
                 }
             },
             Number::BigInt(lhs) => match rhs {
                 Number::Fixnum(rhs) => (**lhs).partial_cmp(&BigInt::from(*rhs)),
                 Number::BigInt(rhs) => (**lhs).partial_cmp(&**rhs),
-                Number::Float(rhs) => (**lhs).to_f64().unwrap().partial_cmp(rhs),
+                Number::Float(rhs) => exact_partial_cmp_f64(self, *rhs),
                 Number::Rational(rhs) => match lhs.to_i32() {
                     Some(lhs) => Rational32::from_integer(lhs).partial_cmp(rhs),
-                    None => Some(Ordering::Greater),
+                    None => (**lhs).partial_cmp(&BigInt::from(0)),
                 },
             },
             Number::Float(lhs) => match rhs {
-                Number::Fixnum(rhs) => lhs.partial_cmp(&(*rhs as f64)),
                 Number::Float(rhs) => lhs.partial_cmp(rhs),
-                Number::BigInt(rhs) => lhs.partial_cmp(&(**rhs).to_f64().unwrap()),
-                Number::Rational(rhs) => lhs.partial_cmp(&rhs.to_f64().unwrap()),
+                _ => exact_partial_cmp_f64(rhs, *lhs).map(Ordering::reverse),
             },
             Number::Rational(lhs) => match rhs {
                 Number::Fixnum(rhs) => {
                     if rhs.to_i32().is_some() {
                         lhs.partial_cmp(&Rational32::from_integer(*rhs as i32))
                     } else {
-                        Some(Ordering::Less)
+                        0.partial_cmp(rhs)
                     }
                 }
-                Number::Float(rhs) => lhs.to_f64().unwrap().partial_cmp(rhs),
+                Number::Float(rhs) => exact_partial_cmp_f64(self, *rhs),
                 Number::BigInt(rhs) => match rhs.to_i32() {
                     Some(rhs) => lhs.partial_cmp(&Rational32::from_integer(rhs)),
-                    None => Some(Ordering::Less),
+                    None => BigInt::from(0).partial_cmp(&**rhs),
                 },
                 Number::Rational(rhs) => lhs.partial_cmp(rhs),
             },
